@@ -184,6 +184,11 @@ struct NonConstArrayLengthError : public Error {
     Error(location, (boost::format("array %s length is not constant") % name).str()) {}
 };
 
+struct NonConstValError : public Error {
+  NonConstValError(Location location, std::string name) :
+    Error(location, (boost::format("val %s is not a constant defined before its use") % name).str()) {}
+};
+
 struct InvalidSyscallError : public Error {
   InvalidSyscallError(Location location, int sysCallId) :
     Error(location, (boost::format("invalid syscall: %d") % sysCallId).str()) {}
@@ -787,9 +792,10 @@ public:
 class ValDecl : public Decl {
   std::unique_ptr<Expr> expr;
   int exprValue;
+  bool valueSet;
 public:
   ValDecl(Location location, std::string name, std::unique_ptr<Expr> expr) :
-      Decl(location, name), expr(std::move(expr)) {}
+      Decl(location, name), expr(std::move(expr)), exprValue(0), valueSet(false) {}
   virtual void accept(AstVisitor *visitor) override {
     visitor->visitPre(*this);
     expr->accept(visitor);
@@ -797,8 +803,9 @@ public:
     visitor->visitPost(*this);
   }
   Expr *getExpr() const { return expr.get(); }
+  bool hasValue() const { return valueSet; }
   int getValue() const { return exprValue; }
-  void setValue(int value) { exprValue = value; }
+  void setValue(int value) { exprValue = value; valueSet = true; }
 };
 
 class VarDecl : public Decl {
@@ -1830,9 +1837,10 @@ public:
   ConstProp(SymbolTable &symbolTable) :
     AstVisitor(true, true, true), symbolTable(symbolTable) {}
   void visitPost(ValDecl &decl) {
-    if (decl.getExpr()->isConst()) {
-      decl.setValue(decl.getExpr()->getValue());
+    if (!decl.getExpr()->isConst()) {
+      throw NonConstValError(decl.getLocation(), decl.getName());
     }
+    decl.setValue(decl.getExpr()->getValue());
   }
   void visitPost(BinaryOpExpr &expr) {
     auto &LHS = expr.getLHS();
@@ -1887,6 +1895,9 @@ public:
       auto symbol = symbolTable.lookup(std::make_pair(getCurrentScope(), expr.getName()),
                                        expr.getLocation());
       if (auto symbolExpr = dynamic_cast<const ValDecl*>(symbol->getNode())) {
+        if (!symbolExpr->hasValue()) {
+          throw NonConstValError(expr.getLocation(), expr.getName());
+        }
         expr.setSysCallId(symbolExpr->getValue());
       } else {
         return;
@@ -1904,6 +1915,9 @@ public:
     auto symbol = symbolTable.lookup(std::make_pair(getCurrentScope(), expr.getName()),
                                      expr.getLocation());
     if (auto symbolExpr = dynamic_cast<const ValDecl*>(symbol->getNode())) {
+      if (!symbolExpr->hasValue()) {
+        throw NonConstValError(expr.getLocation(), expr.getName());
+      }
       expr.setValue(symbolExpr->getValue());
     }
   }
